@@ -87,6 +87,10 @@ func main() {
 		w.Close()
 		fmt.Printf("schedules=%d mismatched=%d\n", k, bad)
 	default:
+		if f, ok := vt.Commands[sub+"/"+mode]; ok {
+			f(vt.Args{Seed: *seed, Out: *out, In: *in, N: *n, Big: *big, Conc: *conc, Timeout: *tmo, Skip: *skip, KD: *kd})
+			return
+		}
 		vt.Fatal("unknown command %s %s", sub, mode)
 	}
 }
